@@ -420,11 +420,9 @@ func parseContractFile(path string) (*ContractFile, error) {
 				}
 				ls.StepAsserts = append(ls.StepAsserts, c)
 			case "unroll":
-				n, err := strconv.Atoi(strings.TrimSpace(fs[2]))
-				if err != nil {
-					return nil, fail("bad unroll count")
-				}
-				ls.Unroll = n
+				// planned in DESIGN 2.x, never implemented: every loop is cut with an invariant; a
+				// contract that asks for unrolling is refused rather than silently treated as cut
+				return nil, fail("loop k unroll N is not implemented: give the loop an invariant")
 			default:
 				return nil, fail("unknown loop clause %q", fs[1])
 			}
